@@ -90,6 +90,29 @@ def run(rng, tier, model_ok):
     for i, q in enumerate(sub):
         if fwd[i].get("results") != rev[i].get("results") or (i < len(fresh) and fresh[i].get("results") != fwd[i].get("results")):
             failures.append({"input": q, "why": "the answer depends on which queries ran before it on the same database"})
+    # spellings of one phrase that differ only in case, among them the words the index's query syntax treats as operators when
+    # capitalised: on one database in both orders, and each on a database of its own
+    var = []
+    for p in [x for x in phrases if " " in x][: (6 if tier == "quick" else 40)]:
+        w = p.split(" ")
+        for j in (" or ", " OR ", " and ", " AND ", " not ", " NOT "):
+            var.append(w[0] + j + " ".join(w[1:]))
+        var += [p, p.upper(), p.title(), w[0].upper() + " " + " ".join(w[1:])]
+    one = vlib.run_impl(["Q %s d" % vlib.hx(q) for q in var], shards=1)
+    two = vlib.run_impl(["Q %s d" % vlib.hx(q) for q in reversed(var)], shards=1)[::-1]
+    from concurrent.futures import ThreadPoolExecutor
+
+    def alone(q):
+        r = subprocess.run([exe], input="Q %s d\n" % vlib.hx(q), capture_output=True, text=True, env=vlib.ENV)
+        return json.loads(r.stdout.split("\n")[0])
+    with ThreadPoolExecutor(max_workers=8) as ex:
+        iso = list(ex.map(alone, var))
+    for q, a, b, c in zip(var, one, two, iso):
+        key = lambda r: (r.get("results"), [(d["phrase"], d["description"]) for d in r.get("desc", [])])
+        if key(a) != key(c) or key(b) != key(c):
+            failures.append({"input": q, "why": "asked after other spellings of the phrase on the same database the answer is not the one it has on a "
+                             "database of its own", "alone": key(c)[0], "in_sequence": key(a)[0] if key(a) != key(c) else key(b)[0]})
+    stats["case_variants"] = len(var)
     mismatches = []
     ncoq = 0
     if model_ok:
